@@ -47,7 +47,7 @@ Reasons(r) ==
     IF r.load # "ok" THEN (IF r.load = "panic" THEN {<<"C11", "load-panic">>} ELSE {})
     ELSE
     (IF r.panic THEN {<<"C11", "match-panic">>} ELSE {})
-    \cup (IF ~(VarDisjoint(U, r.rule) /\ FieldsUnique(T, FieldsUsed(U, r.rule))) THEN {}
+    \cup (IF HasCons(U, r.rule) \/ ~(VarDisjoint(U, r.rule) /\ FieldsUnique(T, FieldsUsed(U, r.rule))) THEN {}
           ELSE IF \A n \in N : (n \in hits) = Sem(U, T, tree.pv, r.rule, n) THEN {}
           ELSE {<<"C05", "sem">>})
     \cup (IF HasNthOfWithVars(U, r.rule) \/ ~OracleAgrees(U0, tree) THEN {}
